@@ -1,4 +1,232 @@
-/-! oracle driver for the run engine (to be written) -/
+import Spok.Run
+import Spok.Judge.Run
+/-! # oracle driver for the run engine (C01 C02 C10 C14)
+
+input line:  `<case> | <implementation observation>`
+  case            `T<k> ev ev …`,  ev = `w.<file>.<v>` | `d.<file>` | `c` | `f.<Task>` | `r.<Tasks>.<force>.<crash>`
+  observation     sections separated by ` ; `; inside a section one value per invocation, separated by ` / `
+     oracle arguments (observed by the harness, not compared):
+       INP  `A=0:0.1+2.1,B=x,N=0:`   per task `dirs:items` (item = `path.content`), `x` = the hasher fails
+       ORD  `A,B`                    run order        SEL `A,B` selected closure
+       CR   `-` | `K<j>` (killed in the j-th Runner call) | `B<j>` `T<j>` `A<j>` (before / torn / after the j-th Dump)
+     compared with the model:  RES `A:O,B:S` | `-`   EXEC `A:1,B:0` | `-`   ERR none|cache|other|crash|panic|bad
+                               CACHE missing | corrupt | `A=<digest id>,B=-`
+output line: `<model observation: RES ; EXEC ; ERR ; CACHE> || C01=… C02=… C10=… C14=…` -/
 namespace Spok.Oracle.Run
-def handle (line : String) : String := "TODO " ++ line
+open Spok.Run Spok.Judge.Run
+
+def splitC (c : Char) (s : String) : List String := (s.splitOn (String.singleton c))
+def words (s : String) : List String := (s.splitOn " ").filter (· ≠ "")
+
+def taskId (s : String) : Option Nat :=
+  match s.toList with
+  | [c] => if 'A' ≤ c ∧ c ≤ 'Z' then some (c.toNat - 65) else none
+  | _ => none
+def taskStr (n : Nat) : String := String.singleton (Char.ofNat (65 + n))
+
+def lookup {β : Type} (l : List (Nat × β)) (d : β) (t : Nat) : β :=
+  match l.find? (fun p => p.1 == t) with
+  | some p => p.2
+  | none => d
+
+def parseItem (s : String) : Option Item :=
+  match splitC '.' s with
+  | [p, c] => do let p ← p.toNat?; let c ← c.toNat?; pure (p, c)
+  | _ => none
+
+def parseInputs (s : String) : Option (Option Inputs) :=
+  if s == "x" then some none else
+  match splitC ':' s with
+  | [d, items] => do
+    let d ← d.toNat?
+    let its ← (if items == "" then some [] else (splitC '+' items).mapM parseItem)
+    pure (some ⟨d, its⟩)
+  | _ => none
+
+/-- `A=0:0.1,B=x` -/
+def parseInp (s : String) : Option (List (Nat × Option Inputs)) :=
+  (splitC ',' s).mapM fun kv =>
+    match splitC '=' kv with
+    | [k, v] => do let k ← taskId k; let v ← parseInputs v; pure (k, v)
+    | _ => none
+
+def parseNames (s : String) : Option (List Nat) :=
+  if s == "-" then some [] else (splitC ',' s).mapM taskId
+
+def parseLetters (s : String) : Option (List Nat) := s.toList.mapM fun c => taskId (String.singleton c)
+
+inductive Crash where
+  | none | kill (j : Nat) | before (j : Nat) | torn (j : Nat) | after (j : Nat)
+
+def parseCrash (s : String) : Option Crash :=
+  match s.toList with
+  | ['-'] => some .none
+  | 'K' :: r => (String.ofList r).toNat?.map .kill
+  | 'B' :: r => (String.ofList r).toNat?.map .before
+  | 'T' :: r => (String.ofList r).toNat?.map .torn
+  | 'A' :: r => (String.ofList r).toNat?.map .after
+  | _ => none
+
+def parseTrace (good bad : String) (s : String) : Option (List (Name × Out)) :=
+  if s == "-" then some [] else
+  (splitC ',' s).mapM fun kv =>
+    match splitC ':' kv with
+    | [k, v] => do
+      let k ← taskId k
+      let o ← (if v == "S" then some Out.skipped else if v == good then some Out.ranOk else if v == bad then some Out.ranFail else none)
+      pure (k, o)
+    | _ => none
+
+def parseErr : String → Option Outcome
+  | "none" => some .done | "cache" => some .cacheError | "other" => some .otherError | "crash" => some .crashed
+  | "panic" => some .panic | "bad" => some .bad | _ => none
+
+def parseCacheCls (s : String) : DiskClass :=
+  if s == "missing" then .missing else if s == "corrupt" then .corrupt else .valid
+
+def sect (secs : List String) (name : String) : Option (List String) :=
+  match secs.find? (fun s => s.startsWith (name ++ " ")) with
+  | some s =>
+    let v := String.ofList (s.toList.drop (name.length + 1))
+    some ((v.splitOn " / ").map fun x => String.ofList ((x.toList.dropWhile (· == ' ')).reverse.dropWhile (· == ' ')).reverse)
+  | none => none
+
+/-! ### model side -/
+
+def truncating : Pc → Bool
+  | .initWriting | .invalidating _ | .committing => true
+  | _ => false
+
+/-- the states `s₀ … s_fuel` of an invocation -/
+def states (s : St) : Nat → List St
+  | 0 => [s]
+  | k + 1 => s :: states (step natDigest s) k
+
+/-- the number of micro-steps after which the implementation's observed crash point falls -/
+def crashSteps (s0 : St) (n : Nat) (c : Crash) : Option Nat :=
+  let sts := states s0 (fuel n)
+  let idx := (List.range sts.length).zip sts
+  -- number of Dumps begun up to and including each state
+  let counts := idx.map fun (i, _) => ((sts.take (i + 1)).filter fun s => truncating s.pc).length
+  let tornAt (j : Nat) : Option Nat :=
+    ((idx.zip counts).find? fun ((_, s), cnt) => truncating s.pc && cnt == j).map fun x => x.1.1
+  match c with
+  | .none => none
+  | .kill j =>
+    (idx.find? fun (_, s) => (match s.pc with | .invalidated _ => true | _ => false) && (s.out.filter isRun).length + 1 == j).map (·.1)
+  | .torn j => tornAt j
+  | .before j => (tornAt j).map (· - 1)
+  | .after j => (tornAt j).map (· + 1)
+
+def outStr : Out → String
+  | .skipped => "S" | .ranOk => "O" | .ranFail => "F"
+
+def joinOr (l : List String) : String := if l.isEmpty then "-" else ",".intercalate l
+
+def errStr : Outcome → String
+  | .done => "none" | .cacheError => "cache" | .otherError => "other" | .crashed => "crash"
+  | .stuck => "stuck" | .panic => "panic" | .bad => "bad"
+
+def cacheStr (tasks : List Nat) : Disk → String
+  | .missing => "missing"
+  | .corrupt => "corrupt"
+  | .valid m => joinOr (tasks.map fun t => taskStr t ++ "=" ++ (match m t with | some d => toString d | none => "-"))
+
+structure Acc where
+  w : World
+  fails : List (Nat × Bool)
+  events : List Event
+  oevents : List OEvent          -- what the implementation was observed to do
+  res : List String
+  exec : List String
+  err : List String
+  cache : List String
+  k : Nat                         -- index of the next invocation
+
+structure Obs where
+  inp : List (List (Nat × Option Inputs))
+  ord : List (List Nat)
+  sel : List (List Nat)
+  cr : List Crash
+  ires : List String
+  iexec : List String
+  ierr : List Outcome
+  icache : List String
+
+def stepCase (o : Obs) (a : Acc) (ev : String) : Option Acc :=
+  match splitC '.' ev with
+  | ["c"] =>
+    let r := runEvent natDigest a.w .removeCache
+    some { a with w := r.1, events := a.events ++ [.removeCache], oevents := a.oevents ++ [.removeCache] }
+  | ["f", t] => do
+    let t ← taskId t
+    pure { a with fails := (t, !(lookup a.fails false t)) :: a.fails }
+  | "w" :: _ => some a
+  | "d" :: _ => some a
+  | ["r", _, force, _] => do
+    let force := force == "1"
+    let inp ← o.inp[a.k]?
+    let ord ← o.ord[a.k]?
+    let sel ← o.sel[a.k]?
+    let cr ← o.cr[a.k]?
+    let ires ← o.ires[a.k]?
+    let iexec ← o.iexec[a.k]?
+    let ierr ← o.ierr[a.k]?
+    let icache ← o.icache[a.k]?
+    let inpF : Name → Option Inputs := lookup inp (some ⟨0, []⟩)
+    let failsL := a.fails
+    let failsF : Name → Bool := lookup failsL false
+    let w1 := (runEvent natDigest a.w (.edit inpF)).1
+    let crashAt := crashSteps (initSt w1 force ord failsF) ord.length cr
+    let e := Event.invoke force ord failsF crashAt
+    let r := runEvent natDigest w1 e
+    let s := runInv natDigest w1 force ord failsF crashAt
+    let tasks := inp.map (·.1)
+    let mres := if s.pc matches .finished then joinOr (s.out.map fun (t, x) => taskStr t ++ ":" ++ outStr x) else "-"
+    let mexec := joinOr ((s.out.filter isRun).map fun (t, x) => taskStr t ++ ":" ++ (if x == .ranOk then "1" else "0"))
+    -- the implementation's observation of this invocation, for the judges
+    let itrace ← (if ierr == .done then parseTrace "O" "F" ires else parseTrace "1" "0" iexec)
+    pure { a with
+      w := r.1, events := a.events ++ [.edit inpF, e],
+      oevents := a.oevents ++ [.edit inpF, .invoke force sel itrace ierr (parseCacheCls icache)],
+      res := a.res ++ [mres], exec := a.exec ++ [mexec], err := a.err ++ [errStr (outcomeOf crashAt s)],
+      cache := a.cache ++ [cacheStr tasks s.disk], k := a.k + 1 }
+  | _ => none
+
+def b2s (b : Bool) : String := if b then "ok" else "FAIL"
+def sl (l : List String) : String := if l.isEmpty then "-" else " / ".intercalate l
+
+def allFail : String := "C01=FAIL C02=FAIL C10=FAIL C14=FAIL"
+
+def handle (line : String) : String :=
+  match line.splitOn " | " with
+  | [case, impl] =>
+    let secs := (impl.splitOn " ; ").map fun x => String.ofList (x.toList.dropWhile (· == ' '))
+    let get (n : String) : List String := ((sect secs n).getD []).filter (· ≠ "-none-")
+    let noInv := (sect secs "ERR") == some ["-"]
+    let strip (l : List String) : List String := if noInv then [] else l
+    let obs : Option Obs := do
+      let inp ← (strip (get "INP")).mapM parseInp
+      let ord ← (strip (get "ORD")).mapM parseNames
+      let sel ← (strip (get "SEL")).mapM parseNames
+      let cr ← (strip (get "CR")).mapM parseCrash
+      let ierr ← (strip (get "ERR")).mapM parseErr
+      pure ⟨inp, ord, sel, cr, strip (get "RES"), strip (get "EXEC"), ierr, strip (get "CACHE")⟩
+    match obs, words case with
+    | some o, _ :: evs =>
+      let a0 : Acc := ⟨World.init, [], [], [], [], [], [], [], 0⟩
+      match evs.foldlM (stepCase o) a0 with
+      | some a =>
+        -- the model observation is that of `runHistory` on the reconstructed history (same fold as above)
+        let model := s!"RES {sl a.res} ; EXEC {sl a.exec} ; ERR {sl a.err} ; CACHE {sl a.cache}"
+        let oh := a.oevents
+        let v01 := b2s (c01 oh)
+        let v02 := if hasCrash oh then "na" else b2s (c02 oh)
+        let v10 := if hasCrash oh then b2s (c10 oh) else "na"
+        let v14 := if hasForced oh then b2s (c14 oh) else "na"
+        s!"{model} || C01={v01} C02={v02} C10={v10} C14={v14}"
+      | none => "BAD-CASE || " ++ allFail
+    | _, _ => "BAD-OBS || " ++ allFail
+  | _ => "BAD-LINE || " ++ allFail
+
 end Spok.Oracle.Run
